@@ -30,7 +30,8 @@ for d in sorted(glob.glob(os.path.join(V, "seeded", "*"))):
     name = os.path.basename(d)
     clean = lambda t, n: re.sub(r"\s+", " ", str(t)).replace("|", "/")[:n]
     rows.append((name, clean(m.get("summary", ""), 170), clean(m.get("needs", ""), 130), m.get("caught")))
-r1 = [r for r in rows if not any(("_r%d_" % k) in r[0] for k in (2, 3, 4, 5, 6))]
+r1 = [r for r in rows if not any(("_r%d_" % k) in r[0] for k in (2, 3, 4, 5, 6, 7))]
+r7 = [r for r in rows if "_r7_" in r[0]]
 r6 = [r for r in rows if "_r6_" in r[0]]
 r4 = [r for r in rows if "_r4_" in r[0]]
 r5 = [r for r in rows if "_r5_" in r[0]]
@@ -63,12 +64,16 @@ the body of a function the property's anchors name, one of each of: MODULE LEVEL
 comprehension, a default argument, a class attribute, a `property(...)` or decorator line, an alias such as `__ior__ = update`, a
 platform switch), HELPER OR GLUE OUTSIDE THE ANCHORS (a shared helper, a base-class or `compat.py` / `core.py` function, a `__repr__` /
 `__iter__` / `__copy__` / `__reduce__` method, an error-message expression), ONE FAMILY ONLY (the IPv4 / IPv6, EUI-48 / EUI-64 or
-platform / fallback sibling paths made to diverge for a narrow class of inputs of one of them).  Every change listed was confirmed by me in a
+platform / fallback sibling paths made to diverge for a narrow class of inputs of one of them); round 7 (`tools/seed_prompt_r7.md`, ten
+properties: C04 C05 C06 C07 C08 C10 C11 C12 C15 C17) asked for one change of each of: CROSS-CLASS SEQUENCE (at least three public calls
+across two classes with a value carried along), RARELY USED PARAMETER OR RESULT DETAIL (`step`, `count`, `word_sep=''`, negative steps;
+the exact type, family, order or one-shot nature of a result), FAILURE ATOMICITY OR LAZY ERRORS (a refused call that leaves something
+behind, errors that surface only when a generator is consumed, two things wrong at once).  Every change listed was confirmed by me in a
 scratch worktree (`tools/eval_seeded.sh`: suite unchanged at 268 passed / 2 pre-existing failures; demo exits 0 on the
 untouched tree and 1 with the change) and the property's quick check was run against the changed tree.  The patch, the
 demo and `meta.json` (what it needs to manifest, what was run, the tail of the check output) are kept under `seeded/<name>/`.
 
-**Result: all %d changes (%d round 1, %d round 2, %d round 3, %d round 4, %d round 5, %d round 6) are caught by the quick tier of the property's own check.**  That was
+**Result: all %d changes (%d round 1, %d round 2, %d round 3, %d round 4, %d round 5, %d round 6, %d round 7) are caught by the quick tier of the property's own check.**  That was
 not so at first; the misses drove these additions:
 
 * round 1, 3 of 57 missed: `C02_2` (memoised `netmask` not invalidated by the `prefixlen` setter) → setter histories read
@@ -136,10 +141,23 @@ not so at first; the misses drove these additions:
   Recurring themes of the other 56, all reported at once: the IPv4-first family detection reached through a positional `version`
   (`IPNetwork((v, p), version)` binds `implicit_prefix`), memoised bounds of `IPRange` surviving the `IPGlob.glob` setter, state
   restored through a constructor that re-detects the family, regexes whose `$` tolerates a trailing newline, `isdigit()`.
+* round 7 (30 changes, run after the structure tie and with 92 %% of the code inside the source tie): none missed; 25 reported with a
+  concrete failing input at once, 5 first through a broken tie only.  Two of those five (`C06_r7_3`, `C07_r7_3`: `IPSet.update()` writing
+  the elements into the set one by one, so that a refused element leaves the earlier ones behind, unmerged) now also give failing
+  inputs: the bulk arguments of the IPSet histories carry, now and then, an element that must be refused AFTER good ones, and the oracle
+  already demanded "raises and leaves the set as it was".  The other three stay tie-only: candidates handed to the matching helpers as a
+  one-shot iterator that a refused call has drained (`C04_r7_3`), `IPSet.add` keeping the caller's own object (`C06_r7_1`; its
+  round-2 sibling is reported with inputs, this variant hides behind a private copy in `remove`), `EUI.words` following the dialect
+  (`C15_r7_1`, reported with inputs by C08, whose accessor theorem it breaks).
+* after the rounds, the full regression (`tools/regress_seeded.sh`, every kept change against the final machinery in a `vp run`
+  snapshot): all reported; the seven that a broken tie alone reported at that point were given generators (valid setter arguments must
+  be accepted - C02; a dot-separated field without a digit under ZEROFILL - C01; `__index__`-only objects as indices and setter
+  arguments - C10, C02; complete enumeration of nmap specs with full trailing octets - C17; the 45-character IPv6 spellings on both
+  sides of the `/` - C03; OUI lookup through every dialect - C19) and now come with failing inputs.
 
 | seeded change | what was changed | needs, to manifest | caught |
 |---|---|---|---|
-''' % (len(rows), len(r1), len(r2), len(r3), len(r4), len(r5), len(r6))
+''' % (len(rows), len(r1), len(r2), len(r3), len(r4), len(r5), len(r6), len(r7))
 for r in rows:
     s += "| `%s` | %s | %s | %s |\n" % (r[0], r[1], r[2], "yes" if r[3] else "NO")
 
